@@ -243,3 +243,60 @@ def check_isinstance_dispatch(ctx, rule, modules, what):
     if not hits:
         ctx.ok(rule, (modules[0], "<module>"), "%d isinstance tests, no exact-type test, in %s" % (n_inst, ", ".join(modules)))
     return n_inst
+
+
+_CLOSURE_MUT = ("append", "appendleft", "extend", "extendleft", "clear", "pop", "popleft", "insert", "remove", "update", "add",
+                "setdefault", "discard", "sort", "reverse", "popitem", "rotate", "send", "__setitem__", "__delitem__")
+
+
+def closure_mutations(outer):
+    """[(inner def/lambda, captured name, node, how)] for every function nested (at any depth) in *outer* that changes an
+    object it captured from an enclosing function's locals: a mutating method call on it, a store/delete through it, or a
+    rebinding declared nonlocal.  Such a variable is state shared by all calls of the inner function."""
+    out = []
+
+    def locals_of(fn):
+        names = set(A.func_params(fn))
+        if isinstance(fn, ast.Lambda):
+            return names
+        decl = set()
+        for n in A.walk_local(fn, include_self=False):
+            if isinstance(n, ast.Name) and isinstance(n.ctx, (ast.Store, ast.Del)):
+                names.add(n.id)
+            elif isinstance(n, (ast.FunctionDef, ast.AsyncFunctionDef, ast.ClassDef)):
+                names.add(n.name)
+            elif isinstance(n, (ast.Nonlocal, ast.Global)):
+                decl.update(n.names)
+        return names - decl
+
+    def visit(fn, enclosing):
+        mine = locals_of(fn)
+        body = [fn.body] if isinstance(fn, ast.Lambda) else fn.body
+        if enclosing:
+            captured = set().union(*enclosing) - mine
+            nonlocal_decl = set()
+            for st in body:
+                for n in A.walk_local(st):
+                    if isinstance(n, ast.Nonlocal):
+                        nonlocal_decl.update(n.names)
+            for st in body:
+                for n in A.walk_local(st):
+                    if isinstance(n, ast.Call) and isinstance(n.func, ast.Attribute) and n.func.attr in _CLOSURE_MUT:
+                        r = A.root_name(n.func.value)
+                        if r in captured and r not in ("self", "cls"):
+                            out.append((fn, r, n, "calls `%s`" % A.short(n, 50)))
+                    elif isinstance(n, (ast.Subscript, ast.Attribute)) and isinstance(n.ctx, (ast.Store, ast.Del)):
+                        r = A.root_name(n)
+                        if r in captured and r not in ("self", "cls"):
+                            out.append((fn, r, n, "stores through `%s`" % A.short(n, 50)))
+                    elif isinstance(n, ast.Name) and isinstance(n.ctx, (ast.Store, ast.Del)) and n.id in nonlocal_decl:
+                        out.append((fn, n.id, n, "rebinds the captured `%s`" % n.id))
+        for st in body:
+            for n in A.walk_local(st):
+                if isinstance(n, (ast.FunctionDef, ast.AsyncFunctionDef)) and n is not fn:
+                    visit(n, enclosing + [mine])
+                elif isinstance(n, ast.Lambda) and n is not fn:
+                    visit(n, enclosing + [mine])
+
+    visit(outer, [])
+    return out
